@@ -76,6 +76,7 @@ V['C03'] = [
     ('Jacobian central as 0.5*', FD, 'return np.array([(f(x + hi) - f(x - hi)) / 2.0 for hi in steps])', 'return np.array([0.5 * (f(x + hi) - f(x - hi)) for hi in steps])', 'S', None),
 ]
 V['C04'] = [
+    ('f(x) no longer evaluated first for backward', FD, "                self.method in ['forward', 'backward'] or", "                self.method in ['forward'] or", 'F', None),
     ('central_even diag divisor', FD, '(4. * hess[i, i])', '(2. * hess[i, i])', 'F', 'R-HESS-SIGNATURE'),
     ('central_even sign slip', FD, '- f(x - e_i + e_j) + f(x - e_i - e_j)) / (4. * hess[j, i])', '- f(x + e_i + e_j) + f(x - e_i - e_j)) / (4. * hess[j, i])', 'F', 'R-HESS-SIGNATURE'),
     ('forward uses g[i] twice', FD, '- g[i] - g[j] + f_x) / hess[j, i]', '- 2 * g[i] + f_x) / hess[j, i]', 'F', 'R-HESS-SIGNATURE'),
@@ -100,6 +101,8 @@ V['C05'] = [
     ('central falls back to a one-sided formula when f raises', FD, '        return (f(x0i + h) - f(x0i - h)) / 2.0', '        try:\n            return (f(x0i + h) - f(x0i - h)) / 2.0\n        except ValueError:\n            return (4 * f(x0i + h) - f(x0i + 2 * h) - 3 * f(x0i)) / 2.0', 'F', 'R-ADMISSIBLE'),
 ]
 V['C07'] = [
+    ('rule memo keyed before the term count is clamped', EXT, '        num_terms = min(self.num_terms, sequence_length - 1)\n        if num_terms > 0:\n            r_mat = self._r_matrix(self.step_ratio, self.step, num_terms, self.order)\n            return linalg.pinv(r_mat)[0]\n        return np.ones((1,))', "        key = (self.step_ratio, self.step, self.num_terms, self.order)\n        memo = getattr(self, '_memo', None)\n        if memo is not None and memo[0] == key:\n            return memo[1].copy()\n        num_terms = min(self.num_terms, sequence_length - 1)\n        if num_terms > 0:\n            r_mat = self._r_matrix(self.step_ratio, self.step, num_terms, self.order)\n            rule = linalg.pinv(r_mat)[0]\n        else:\n            rule = np.ones((1,))\n        self._memo = (key, rule)\n        return rule.copy()", 'F', 'R-REUSE'),
+    ('rule memo keyed by the clamped term count', EXT, '        num_terms = min(self.num_terms, sequence_length - 1)\n        if num_terms > 0:\n            r_mat = self._r_matrix(self.step_ratio, self.step, num_terms, self.order)\n            return linalg.pinv(r_mat)[0]\n        return np.ones((1,))', "        num_terms = min(self.num_terms, sequence_length - 1)\n        key = (self.step_ratio, self.step, num_terms, self.order)\n        memo = getattr(self, '_memo', None)\n        if memo is not None and memo[0] == key:\n            return memo[1].copy()\n        if num_terms > 0:\n            r_mat = self._r_matrix(self.step_ratio, self.step, num_terms, self.order)\n            rule = linalg.pinv(r_mat)[0]\n        else:\n            rule = np.ones((1,))\n        self._memo = (key, rule)\n        return rule.copy()", 'S', None),
     ('r_matrix exponent shifted', EXT, 'r_mat[:, 1:] = (1.0 / step_ratio) ** (i * (step * j + order))', 'r_mat[:, 1:] = (1.0 / step_ratio) ** (i * (step * (j + 1) + order))', 'F', 'R-EXTRAP'),
     ('rule takes last row', EXT, 'return linalg.pinv(r_mat)[0]', 'return linalg.pinv(r_mat)[-1]', 'F', 'R-EXTRAP'),
     ('short sequences not handled', EXT, 'num_terms = min(self.num_terms, sequence_length - 1)', 'num_terms = self.num_terms', 'F', None),
@@ -136,6 +139,8 @@ V['C09'] = [
     ('method setter normalises the order', CORE, '    def method(self, method):\n        self.fd_rule.method = method\n', '    def method(self, method):\n        self.fd_rule.method = method\n        self.fd_rule.order = self.fd_rule.method_order\n', 'F', 'R-HISTORY'),
 ]
 V['C10'] = [
+    ('zero filter keeps a step when any element is non zero', SG, '            if (np.abs(step) > 0).all():', '            if np.any(step != 0):', 'F', 'R-ZEROFILTER'),
+    ('zero filter through np.all', SG, '            if (np.abs(step) > 0).all():', '            if np.all(np.abs(step) > 0):', 'S', None),
     ('Min generator ascending', SG, '        return range(self.num_steps - 1, -1, -1)', '        return range(self.num_steps)', 'F', None),
     ('offset inside the sign', SG, 'step = base_step * step_ratio ** (sgn * i + offset)', 'step = base_step * step_ratio ** (sgn * (i + offset))', 'F', 'R-CLOSEDFORM'),
     ('num_steps check always applied', SG, '            if self.check_num_steps:\n                num_steps = max(num_steps, min_num_steps)', '            num_steps = max(num_steps, min_num_steps)', 'F', 'R-OPTIONS'),
@@ -147,6 +152,7 @@ V['C10'] = [
     ('make_exact before the nominal step', SG, 'base_step, step_ratio = self.base_step * self.step_nom, self.step_ratio', 'base_step, step_ratio = self.base_step, self.step_ratio', 'F', None),
 ]
 V['C11'] = [
+    ('path names canonicalised by their first letter', LIM, "        self.path = options.pop('path', 'radial')", "        self.path = options.pop('path', 'radial')\n        self.path = dict(r='radial', s='spiral').get(self.path[:1].lower(), self.path)", 'F', 'R-MISUSE'),
     ('revert fix 4107309 (Jacobian guard)', CORE, "        if self.method in ['complex', 'multicomplex']:\n            self._raise_error_if_any_is_complex(x_i, fxi)\n        results = [diff(f, fxi, x_i, h) for h in steps]", '        results = [diff(f, fxi, x_i, h) for h in steps]', 'F', 'R-COMPLEXGUARD'),
     ('guard only for complex', CORE, "        if self.method in ['complex', 'multicomplex']:\n            f_x = f(x)", "        if self.method in ['complex']:\n            f_x = f(x)", 'F', 'R-COMPLEXGUARD'),
     ('_assert raises TypeError', CORE, 'def _assert(cond, msg):\n    if not cond:\n        raise ValueError(msg)', 'def _assert(cond, msg):\n    if not cond:\n        raise TypeError(msg)', 'F', None),
@@ -202,6 +208,8 @@ V['C14'] = [
     ('Dea irregular test as a product of magnitudes', EXT, 'epsinf = abs(sss*e_1)', 'epsinf = abs(sss) * e1abs', 'S', None),
 ]
 V['C15'] = [
+    ('fd_weights from a memoised table, last cached row', FB, '    return fd_weights_all(x, x0, n)[-1]', "    key = (tuple(np.asarray(x).tolist()), x0)\n    tab = _TABLES.get(key)\n    if tab is None or tab.shape[0] < n + 1:\n        tab = _TABLES[key] = fd_weights_all(x, x0, n)\n    return tab[-1]\n\n\n_TABLES = {}", 'F', 'R-ROW'),
+    ('fd_weights from a memoised table, row n', FB, '    return fd_weights_all(x, x0, n)[-1]', "    key = (tuple(np.asarray(x).tolist()), x0)\n    tab = _TABLES.get(key)\n    if tab is None or tab.shape[0] < n + 1:\n        tab = _TABLES[key] = fd_weights_all(x, x0, n)\n    return tab[n].copy()\n\n\n_TABLES = {}", 'S', None),
     ('weights[v, j] instead of j-1', FB, 'c_2, c_6, c_7 = c_2 * c_3, j * weights[v, j - 1], weights[v, j]', 'c_2, c_6, c_7 = c_2 * c_3, j * weights[v, j], weights[v, j]', 'F', 'R-LAGRANGE'),
     ('new row uses c_4', FB, 'weights[i, j] = c_1 * (c_6 - c_5 * c_7) / c_2', 'weights[i, j] = c_1 * (c_6 - c_4 * c_7) / c_2', 'F', 'R-LAGRANGE'),
     ('inner loop short', FB, '        for v in range(i):\n            c_3 = x[i] - x[v]', '        for v in range(max(i - 1, 1)):\n            c_3 = x[i] - x[v]', 'F', 'R-LAGRANGE'),
